@@ -1644,13 +1644,21 @@ def remove_redundant_transpose_pairs_ir(graph: ir.Graph) -> None:
                 cur = consumers[0]
                 T2: Optional[ir.Node] = None
                 steps = 0
-                while steps < 8:
+                chain_ok = not _value_is_observed_externally(graph, nodes, T1_out)
+                data_val: Optional[ir.Value] = T1_out
+                while chain_ok and steps < 8:
                     steps += 1
                     m = cur
                     if m.op_type in ALLOWED_ELEMWISE:
+                        if not _elementwise_side_operands_are_scalar(m, data_val):
+                            break
                         chain_nodes.append(m)
                         allowed_nodes.append(m)
                         cur_val = _node_output(m)
+                        if _value_is_observed_externally(graph, nodes, cur_val):
+                            chain_ok = False
+                            break
+                        data_val = cur_val
                         next_nodes = _consumer_nodes(nodes, cur_val)
                         if len(next_nodes) != 1:
                             break
@@ -1660,7 +1668,7 @@ def remove_redundant_transpose_pairs_ir(graph: ir.Graph) -> None:
                         chain_nodes.append(m)
                         T2 = m
                     break
-                if T2 is None:
+                if T2 is None or not chain_ok:
                     i += 1
                     continue
                 perm1 = _transpose_perm(T1)
@@ -2202,6 +2210,29 @@ def _value_is_graph_output(graph: ir.Graph, value: ir.Value | None) -> bool:
         if value_name and value_name == _v_name(output):
             return True
     return False
+
+
+def _value_is_observed_externally(
+    graph: ir.Graph, nodes: Sequence[ir.Node], value: Optional[ir.Value]
+) -> bool:
+    """True when ``value`` is a graph output or is captured by a nested graph."""
+    if value is None:
+        return False
+    return _value_is_graph_output(graph, value) or _nested_graph_references_value(
+        nodes, value
+    )
+
+
+def _elementwise_side_operands_are_scalar(
+    node: ir.Node, data_value: Optional[ir.Value]
+) -> bool:
+    """Layout-invariant only if every operand except the data path is a scalar."""
+    for iv in _node_inputs(node):
+        if iv is None or iv is data_value:
+            continue
+        if not _is_scalar_const_value(iv):
+            return False
+    return True
 
 
 def rewrite_mul_sigmoid_as_swish_ir(graph: ir.Graph) -> None:
